@@ -44,6 +44,8 @@ var props = []propSpec{
 			{Name: "HarnessC13TypedHelpers", Bounds: "Maximum/Minimum{,Int,Uint}: full 64-bit ints, all non-NaN float64; exclusive symbolic"},
 			{Name: "HarnessC13MaxNative", Bounds: "12 Go numeric kinds; |value| <= 2^53, bound any non-NaN float64 in [-2^53, 2^53] (fractions, subnormals, ±0); exclusive symbolic"},
 			{Name: "HarnessC13MinNative", Bounds: "12 Go numeric kinds; |value| <= 2^53, bound any non-NaN float64 in [-2^53, 2^53]; exclusive symbolic"},
+			{Name: "HarnessC13Validators", Bounds: "minimum/maximum (inclusive/exclusive, bounds picked from {-3,0,2,2.5,100}) through NewSchemaValidator and NewParamValidator with a fully symbolic value of each of the 12 Go numeric kinds"},
+			{Name: "HarnessC13MultipleOfValidators", Bounds: "multipleOf (factor in {1,2,3,0.5,1.5}) through NewSchemaValidator and MultipleOfNativeType with picked values in each of the 10 integer kinds"},
 			{Name: "HarnessC13MultipleOfInt", Bounds: "MultipleOfInt/Uint: |data| <= 2^31 (2^32 unsigned), 0 < factor <= 2^16"},
 		},
 		Assumptions: []string{"within |x| <= 2^53 an integer converts to float64 exactly, so fp comparison of float64(value) with the bound is the comparison of the mathematical values"},
@@ -56,6 +58,7 @@ var props = []propSpec{
 			{Name: "HarnessC01MultipleOfEnum", Bounds: "multipleOf in {0.5,1,2,3}, numeric enum of 1-2 values, instance from 10 picked numbers or a scalar"},
 			{Name: "HarnessC01String", Bounds: "type string?, min/maxLength picks 0..3, pattern in {none,^a,b$}, format date through the registry stub (known and valid symbolic); instances: 5 strings incl. non-ASCII, or a scalar"},
 			{Name: "HarnessC01Array", Bounds: "items none / single L3 / tuple of 1-2 L3; additionalItems absent/true/false/L3; min/maxItems picks 0..3; uniqueItems; arrays of 0-3 elements from {pick number, \"a\"}", BoundsThorough: "tuples up to 3, arrays of 0-4 elements from {pick number, \"a\", null}, type keyword free"},
+			{Name: "HarnessC01UniqueComposite", Bounds: "uniqueItems over 2 composite items drawn from 10 arrays/objects whose textual renderings coincide pairwise, plus an optional scalar"},
 			{Name: "HarnessC01Object", Bounds: "properties{a:L3} + one of 12 features (second property, patternProperties, additionalProperties true/false/L3, required, min/maxProperties picks, dependencies property/schema, type); members a, ab, b, c with forked presence", BoundsThorough: "two features combined"},
 			{Name: "HarnessC01Composition", Bounds: "allOf/anyOf/oneOf of 1-2 leaves of L6 (15 variants), not L6; instance scalar / [] / {}", BoundsThorough: "1-3 leaves"},
 			{Name: "HarnessC01Enum", Bounds: "enum of 1-2 values from scalars, [num], {a:num}; instance likewise"},
